@@ -523,6 +523,40 @@ def random_case(rng, tags=False):
             "runA": not hyphenated(cfg) and not tagged}
 
 
+# ------------------------------------------------------------------------------------------- fixed reproducers
+def fixed_cases():
+    """One small application that shows every open known finding of C13, independent of the seed: command foo with an
+    argument named `info` (a style tag) and an option whose default is announced in <b>..</b>.
+      width 60, plain : the argument is missing from the page (P.lists.args, P.request.page / style-tag-name);
+                        `help --help` differs from `help help` (P.request.same / builtin-help)
+      width 27, ANSI  : the label leaves its style on the formatter's stack and the wrapper cuts `<b>` but not `</b>`:
+                        ValueError('Incorrectly nested style tag found.') (P.succeeds, P.request.status)"""
+    def words(t):
+        return t.split()
+
+    helpcmd = {"name": "help", "rank": 2, "aliases": [], "hidden": False, "enabled": True, "dflt": True, "anon": False,
+               "builtin": True, "desc": words("Display the manual of a command"), "help": [],
+               "args": [{"name": "command", "req": False, "multi": True, "hasDesc": True, "desc": words("The command name"), "dflt": []}],
+               "opts": [], "subs": []}
+    foo = {"name": "foo", "rank": 1, "aliases": [], "hidden": False, "enabled": True, "dflt": False, "anon": False,
+           "builtin": False, "desc": words("does things"), "help": [], "subs": [],
+           "args": [{"name": "info", "req": False, "multi": False, "hasDesc": True, "desc": words("the info"), "dflt": []}],
+           "opts": [{"long": "force", "short": "", "ps": False, "val": "opt", "multi": False, "hasDesc": True,
+                     "desc": ["directory"], "dflt": ["1.5"]}]}
+    cfg = {"app": "app", "display": ["App"], "ver": "1.0", "help": [], "base": "slim", "nl": 0,
+           "gopts": [{"long": "help", "short": "h", "ps": True, "val": "no", "multi": False, "hasDesc": True,
+                      "desc": words("Display this help message"), "dflt": []}],
+           "cmds": [helpcmd, foo]}
+    base = {"cfg": cfg, "runA": False}
+    return [
+        dict(base, T=60, ansi=False, pages=[[2]], reqs=[]),
+        dict(base, T=60, ansi=False, pages=[], reqs=[[2, 0, 0, "--help"]]),
+        dict(base, T=60, ansi=False, pages=[], reqs=[[1, 0, 0, "--help"]]),
+        dict(base, T=27, ansi=True, pages=[[2]], reqs=[]),
+        dict(base, T=27, ansi=True, pages=[], reqs=[[2, 0, 0, "-h"]]),
+    ]
+
+
 # ------------------------------------------------------------------------------------------- the check
 def replay_behaviour(line):
     """one behaviour emitted by MC_HelpPage -> the same pages and requests on the real code, compared for equality"""
@@ -637,6 +671,10 @@ def run(ctx):
 
     # ---- code -> spec: seeded random applications, larger than TLC enumerates
     traces, cases = [], []
+    for case in fixed_cases():  # the reproducers of the open known findings: always run, whatever the seed
+        traces.append(record(case))
+        cases.append(case)
+        ctx.count(len(traces[-1]) - 1)
     nrand = 150 if quick else 2500
     for n in range(nrand):
         for case in subcases(random_case(ctx.rng, tags=(n % 10 == 9))):
@@ -648,8 +686,9 @@ def run(ctx):
     for tr, case in mism + samples:
         traces.append(tr)
         cases.append(case)
-    ev = traces[0][1]
-    ctx.sample({"random_application": {"commands": [c["name"] for c in cases[0]["cfg"]["cmds"]], "T": cases[0]["T"]},
+    first = len(fixed_cases())  # the first random application
+    ev = traces[first][1]
+    ctx.sample({"random_application": {"commands": [c["name"] for c in cases[first]["cfg"]["cmds"]], "T": cases[first]["T"]},
                 "application_page": [" ".join(ln["w"]) for ln in ev["obs"]["lines"][:10]]})
     for part_t, part_c in zip(chunks(traces, 120), chunks(cases, 120)):
         ctx.validate(SPEC, "HelpPageTrace", "HelpPageTrace.cfg", part_t, cases=part_c, name="recorded-pages", chunk=120)
